@@ -65,7 +65,8 @@ CHECKS = {
          "rejected and zero calls, reset_internal_buffers, clone) on long-lived Resizers, every call repeated on a fresh one: TLC replays each history per slot -- the logged buffer "
          "length before/after every temporary image and the alignment gap must equal the model's, the hook sequence must be allowed -- and the reused result must equal the fresh one. "
          "Spec -> implementation: TLC's simulator draws call histories from MC_ResizerSim (behaviours of the specification), the harness executes them on one long-lived Resizer and the recorded hook stream is validated again; near-repeat histories "
-         "(same sizes with another crop origin, filter, algorithm, pixel type or alpha flag directly after each other) target state that is keyed too coarsely.",
+         "(same sizes with another crop origin, filter, algorithm, pixel type or alpha flag directly after each other) target state that is keyed too coarsely. "
+         "The back-end is selected on a long-lived resizer only when a case asks for another one, and Resizer!BackendOK requires the back-end in force at dispatch, premultiply and divide (hooks) to be the selected one -- also after reset and on clones.",
     note="Results compared via two 31-bit digests. Buffer contents are abstract (written / not written per image); stale *content* is detected only through the result comparison.",
     design="4/C09", technique=TECH),
  "C11": dict(
@@ -148,7 +149,7 @@ m = {"version": 1,
      "hooks": {"guard": "--cfg fir_verif",
                "enable": "harness/.cargo/config.toml passes rustflags --cfg fir_verif to the harness build, whose path dependency is /repo (features rayon)",
                "baseline_off_cmd": "cd /repo && cargo test --workspace --no-fail-fast --offline",
-               "source_commits": ["ef02d83", "927d2c0", "2fbaacf", "6d53a32"], "add_only": True},
+               "source_commits": ["ef02d83", "927d2c0", "2fbaacf", "6d53a32", "7b816cc"], "add_only": True},
      "engines": [{"name": "tlc", "path": "/usr/local/bin/tlc", "serves_properties": sorted(CHECKS), "kind_free_text": "TLA+ explicit-state model checker (model checks and trace validation)"},
                  {"name": "apalache", "path": "/usr/local/bin/apalache-mc", "serves_properties": sorted(CHECKS), "kind_free_text": "symbolic checker for arithmetic lemmas over full machine ranges"},
                  {"name": "tlapm", "path": "/usr/local/bin/tlapm", "serves_properties": ["C03", "C11", "C14", "C15"], "kind_free_text": "TLA+ proof system: unbounded proofs of the band arithmetic and of nearest-index-inside-source"},
